@@ -309,7 +309,11 @@ func (x *g) genUserTypes() {
 		x.genDerivedType()
 	}
 	if x.o.Profile == "validation" && x.chance(2, 3) {
-		x.genSoloValidationTypes()
+		// two types each holding ONE validation, in two different positions (array element, map key, map element,
+		// attribute, alias)
+		p := x.r.Intn(5)
+		x.genSoloValidationTypes(p)
+		x.genSoloValidationTypes((p + 1 + x.r.Intn(4)) % 5)
 	}
 	if (x.o.Profile == "validation" || x.o.Profile == "mixed") && x.o.Profile != "grpc" && x.chance(1, 2) {
 		x.genAliasChain()
@@ -1038,8 +1042,7 @@ func elemRefsSelf(t *spec.Type, self string) bool {
 // element, map key, map element, attribute, alias) and a wrapper type that merely refers to it: the
 // generators decide per type whether any validation code is needed at all, and these are the edge cases
 // of that decision.
-func (x *g) genSoloValidationTypes() {
-	pos := x.r.Intn(5)
+func (x *g) genSoloValidationTypes(pos int) {
 	kind := []string{spec.String, spec.Int, spec.Int32, spec.UInt32, spec.Float64}[x.r.Intn(5)]
 	val := x.genVal(kind, nil)
 	for i := 0; val.Empty() && i < 5; i++ {
@@ -1059,6 +1062,12 @@ func (x *g) genSoloValidationTypes() {
 		if kind != spec.String && !spec.IsInt(kind) {
 			kind = spec.String
 			val = x.genVal(kind, nil)
+			for i := 0; val.Empty() && i < 8; i++ {
+				val = x.genVal(kind, nil)
+			}
+			if val.Empty() {
+				val = &spec.Val{MinLen: ip(2)}
+			}
 		}
 		carrier.Type = &spec.Type{Kind: spec.Map, Key: &spec.Attr{Type: &spec.Type{Kind: kind}, Val: val}, Elem: &spec.Attr{Type: &spec.Type{Kind: spec.Int}}}
 		x.s.AddFeature("solo-validation-map-key")
